@@ -25,17 +25,20 @@ Layer 2 (the real loop and the scanner).
 * `formatLoop_eq_runWords`, `formatText_eq` : the real loop / `formatText` is `runWords` on the
   words obtained by iterating `getNextWord` (`allWords`); no extra hypothesis (in particular the
   fuel `text.length + 1` of the model never cuts the loop short: `getNextWord_progress`);
-* `getNextWord_facts` : end position inside the text; the word is a non-empty contiguous slice
-  ending there and everything skipped before it is a space or a backslash followed by a
-  backslash; an empty word means the whole remaining text is spaces;
-* `format_correct` : W1..W4 for `formatText` itself.
+* `getNextWord_facts`, `getNextWord_skips_only_spaces` : end position inside the text; the word is
+  a non-empty contiguous slice ending there and everything skipped before it is a space; an empty
+  word means the whole remaining text is spaces;
+* `scanner_covers_text` : for EVERY text, the scanned words contain exactly the non-space
+  characters of the text, in order (the scanner loses nothing);
+* `format_correct` : W1..W4 for `formatText` itself (only hypothesis: the font id is accepted).
 
-PARTIAL (hypothesis stated explicitly):
-* `getNextWord_skips_only_spaces_partial`, `scanner_covers_text_partial` : the scanned words
-  contain exactly the non-space characters of the text, ASSUMING the text has no two adjacent
-  backslashes (`NoDoubleBS`).  The full statement `scanner_covers_text_full` is FALSE
-  (`scanner_covers_text_full_false`, `getNextWord_drops_backslash`): a word that starts with
-  two backslashes loses the first one, in the model as in `formattext.go`.
+Status: NOTHING IS PARTIAL.  Finding F15 (a word starting with two backslashes lost the first one:
+`aa \\n bb` came out as `aa \n⏎bb`) has been FIXED in `formattext.go` and in the model; the former
+theorems `getNextWord_drops_backslash` / `scanner_covers_text_full_false` (which exhibited the
+defect) are false of the fixed model and were removed; the former hypothesis `NoDoubleBS` is gone
+(`getNextWord_skips_only_spaces_partial` / `scanner_covers_text_partial` are kept only as trivial
+corollaries under their old names).  `f15_fixed_example` shows the repaired behaviour on
+`aa \\n bb`: the words are `aa`, `\`, `\n`, `bb`.
 Limits of what is claimed:
 * "width of a line" is the formatter's own measure `lineW`: the sum of `getWordPixelWidth` of
   the words plus `spaceW` between neighbours;
@@ -220,15 +223,14 @@ theorem formatLoop_eq_runWords (n : Nat) (rest word : List Char) (st : FS)
   Fmt.formatLoop_eq_runWords fc fontID maxWidth overlap numLines spaceW n rest word st hw hn
 
 /-- `getNextWord`: the end position is inside the text; the word is a contiguous slice `[a, end)`
-of the text and is then non-empty, and every position skipped before `a` holds a space or a
-backslash directly followed by a backslash; if the word is empty, everything was consumed and
-the text consists of spaces only. -/
+of the text and is then non-empty, and every position skipped before `a` holds a space; if the
+word is empty, everything was consumed and the text consists of spaces only. -/
 theorem getNextWord_facts (text : List Char) :
     (getNextWord text).1 ≤ text.length ∧
     (((getNextWord text).2 = [] ∧ (getNextWord text).1 = text.length ∧ ∀ c ∈ text, c = ' ') ∨
      (∃ a, a < (getNextWord text).1 ∧
         (getNextWord text).2 = slice text a (getNextWord text).1 ∧
-        ∀ i, i < a → Skippable text i)) :=
+        ∀ i, i < a → text[i]? = some ' ')) :=
   getNextWord_spec text
 
 /-- A non-empty word consumes at least one and at most all characters (the loop terminates). -/
@@ -236,26 +238,38 @@ theorem getNextWord_progress (text : List Char) (h : (getNextWord text).2 ≠ []
     1 ≤ (getNextWord text).1 ∧ (getNextWord text).1 ≤ text.length :=
   Fmt.getNextWord_progress text h
 
-/-- Excluding texts with two adjacent backslashes (the known defect), a non-empty word is
-preceded by spaces only. -/
-theorem getNextWord_skips_only_spaces_partial (text : List Char) (hbs : NoDoubleBS text)
+/-- A non-empty word is the slice `[a, end)` of the text and is preceded by spaces only: the
+scanner drops nothing but spaces (every text). -/
+theorem getNextWord_skips_only_spaces (text : List Char) (hw : (getNextWord text).2 ≠ []) :
+    ∃ a, a < (getNextWord text).1 ∧ (getNextWord text).1 ≤ text.length ∧
+      (getNextWord text).2 = slice text a (getNextWord text).1 ∧
+      ∀ c ∈ text.take a, c = ' ' :=
+  Fmt.getNextWord_skips_only_spaces text hw
+
+/-- The text splits as: spaces, the word, the rest on which the scanner continues. -/
+theorem getNextWord_decomp (text : List Char) (hw : (getNextWord text).2 ≠ []) :
+    ∃ sp, (∀ c ∈ sp, c = ' ') ∧
+      text = sp ++ (getNextWord text).2 ++ text.drop (getNextWord text).1 :=
+  Fmt.getNextWord_decomp text hw
+
+/-- For every text, the scanned words contain exactly the non-space characters of the text, in
+order: the scanner loses nothing, duplicates nothing, reorders nothing. -/
+theorem scanner_covers_text (text : List Char) :
+    ((allWords text).flatten).filter (fun c => c != ' ') = text.filter (fun c => c != ' ') :=
+  wordsOf_cover _ text (Nat.lt_succ_self _)
+
+/-- Old name (before the fix of F15 the hypothesis was needed); now a corollary. -/
+theorem getNextWord_skips_only_spaces_partial (text : List Char) (_hbs : NoDoubleBS text)
     (hw : (getNextWord text).2 ≠ []) :
     ∃ a, a < (getNextWord text).1 ∧ (getNextWord text).1 ≤ text.length ∧
       (getNextWord text).2 = slice text a (getNextWord text).1 ∧
       ∀ c ∈ text.take a, c = ' ' :=
-  Fmt.getNextWord_skips_only_spaces_partial text hbs hw
+  getNextWord_skips_only_spaces text hw
 
-/-- Excluding texts with two adjacent backslashes, the scanned words contain exactly the
-non-space characters of the text, in order: the scanner loses nothing. -/
-theorem scanner_covers_text_partial (text : List Char) (hbs : NoDoubleBS text) :
+/-- Old name (before the fix of F15 the hypothesis was needed); now a corollary. -/
+theorem scanner_covers_text_partial (text : List Char) (_hbs : NoDoubleBS text) :
     ((allWords text).flatten).filter (fun c => c != ' ') = text.filter (fun c => c != ' ') :=
-  wordsOf_cover_partial _ text hbs (Nat.lt_succ_self _)
-
-/-- The full statement (no hypothesis on backslashes) — it is FALSE for the model and for
-`formattext.go`, see `scanner_covers_text_full_false`. -/
-def scanner_covers_text_full : Prop :=
-  ∀ text : List Char,
-    ((allWords text).flatten).filter (fun c => c != ' ') = text.filter (fun c => c != ' ')
+  scanner_covers_text text
 
 /-- All scanned words are non-empty. -/
 theorem allWords_nonempty (text : List Char) : ∀ w ∈ allWords text, w ≠ [] :=
@@ -349,18 +363,29 @@ example : getNextWord "   ".toList = (3, []) := by decide
 example : formatText {} "aaa bbb\nccc\\Ndd \\p e".toList 70 0 "TEST" 2 =
     .ok "aaa bbb\\n\nccc\\l\ndd\\p\ne".toList := by rfl
 
-/-- The known defect: a word that begins with two backslashes loses the first one
-(`startPos` moves to the second backslash), so the scanner does NOT cover every non-space
-character of the text. -/
-theorem getNextWord_drops_backslash :
-    getNextWord "\\\\n x".toList = (3, "\\n".toList) ∧
-    slice "\\\\n x".toList 1 3 = "\\n".toList := by decide
+/-- F15 is fixed: on `aa \\n bb` the scanner yields the words `aa`, `\`, `\n`, `bb` (the first
+backslash of `\\n` is an ordinary one-character word, the second starts the break code `\n`),
+each word is the announced slice, and the concatenation law holds. -/
+theorem f15_fixed_example :
+    allWords "aa \\\\n bb".toList = ["aa".toList, "\\".toList, "\\n".toList, "bb".toList] ∧
+    getNextWord "\\\\n bb".toList = (1, "\\".toList) ∧
+    getNextWord "\\n bb".toList = (2, "\\n".toList) ∧
+    ((allWords "aa \\\\n bb".toList).flatten).filter (fun c => c != ' ') =
+      "aa\\\\nbb".toList := by decide
 
-theorem scanner_covers_text_full_false : ¬ scanner_covers_text_full := by
-  intro h
-  exact absurd (h "\\\\n x".toList) (by decide)
+/-- The same through `formatText`: `\` stays a word on the first line, `\n` breaks the line. -/
+example : formatText {} "aa \\\\n bb".toList 70 0 "TEST" 2 = .ok "aa \\\\n\nbb".toList := by rfl
 
-example : NoDoubleBS "aaa bbb  ccc\\Ndd \\p e".toList := NoDoubleBS_of_check _ (by decide)
+/-- A word that starts with two backslashes and goes on with ordinary characters keeps both. -/
+example : getNextWord "  \\\\ab c".toList = (6, "\\\\ab".toList) := by decide
+
+/-- Non-vacuity of `getNextWord_skips_only_spaces` / `scanner_covers_text` on a text with adjacent
+backslashes. -/
+example : ∃ a, a < 6 ∧ "\\\\ab".toList = slice "  \\\\ab c".toList a 6 ∧
+    ∀ c ∈ "  \\\\ab c".toList.take a, c = ' ' := ⟨2, by decide, by decide, by decide⟩
+example : (getNextWord "  \\\\ab c".toList).2 ≠ [] := by decide
+example : ((allWords "  \\\\ab c \\\\\\p".toList).flatten).filter (fun c => c != ' ') =
+    "\\\\abc\\\\\\p".toList := scanner_covers_text _
 
 example : ((allWords "aaa bbb  ccc\\Ndd \\p e".toList).flatten).filter (fun c => c != ' ') =
     "aaabbbccc\\Ndd\\pe".toList := by decide
